@@ -239,7 +239,8 @@ func (rl *Shell) viAddEol() {
 // Move forward one character, without changing lines.
 func (rl *Shell) viForwardChar() {
 	// Only exception where we actually don't forward a character.
-	if rl.Config.GetBool("history-autosuggest") && rl.cursor.Pos() == rl.line.Len()-1 {
+	// (And never as the motion of an operator, which only wants a range.)
+	if rl.Config.GetBool("history-autosuggest") && rl.cursor.Pos() == rl.line.Len()-1 && rl.Keymap.Local() != keymap.ViOpp {
 		rl.autosuggestAccept()
 		return
 	}
